@@ -1,8 +1,10 @@
 #!/bin/bash
-# Builds the harness offline from files on disk (cargo registry cache + /repo as path dependency).
+# Builds the harness offline from files on disk (cargo registry cache + /repo as path dependency) and
+# pre-builds the libFuzzer targets used by the thorough tier (nightly toolchain, cargo-fuzz, no sanitizer).
 set -e
 cd "$(dirname "$0")"
 export CARGO_NET_OFFLINE=true
 mkdir -p harness/target out evidence
 ( cd harness && cargo build --release -p verif-checks )
 harness/target/release/verif-checks selfcheck all
+( cd harness/fuzz && cargo +nightly fuzz build -s none ) || echo "warning: libFuzzer targets did not build; the thorough tier will report its fuzz step as inconclusive"
